@@ -1292,6 +1292,139 @@ fn extend_ref_scenario<const N: usize>(seed: u64) -> Result<(), String> {
     Ok(())
 }
 
+/// Formatting with formatter options (family `f`): `Debug` of a container or of one of its iterators
+/// is std's `debug_map` / `debug_set` / `debug_list` of the entries in iteration order UNDER THE SAME
+/// OPTIONS (`{:x?}`, `{:6?}`, `{:+?}`, `{:#x?}` … reach the elements through the builders); `Display` is
+/// `{`, the entries joined by `, `, `}` with every entry rendered the same way — all with the caller's
+/// options or all without (both occur in the crate: `Set` forwards the formatter, `Map` does not).
+fn fmt_scenario<const N: usize>(seed: u64) -> Result<(), String> {
+    use std::fmt;
+    struct DM<'a>(&'a [(u32, i32)]);
+    impl fmt::Debug for DM<'_> {
+        fn fmt(&self, f: &mut fmt::Formatter<'_>) -> fmt::Result {
+            f.debug_map().entries(self.0.iter().map(|(k, v)| (k, v))).finish()
+        }
+    }
+    struct DS<'a>(&'a [i32]);
+    impl fmt::Debug for DS<'_> {
+        fn fmt(&self, f: &mut fmt::Formatter<'_>) -> fmt::Result {
+            f.debug_set().entries(self.0.iter()).finish()
+        }
+    }
+    struct DL<'a, T>(&'a [T]);
+    impl<T: fmt::Debug> fmt::Debug for DL<'_, T> {
+        fn fmt(&self, f: &mut fmt::Formatter<'_>) -> fmt::Result {
+            f.debug_list().entries(self.0.iter()).finish()
+        }
+    }
+    /// every element with the caller's options
+    struct JoinOpts<'a>(&'a [i32]);
+    impl fmt::Display for JoinOpts<'_> {
+        fn fmt(&self, f: &mut fmt::Formatter<'_>) -> fmt::Result {
+            f.write_str("{")?;
+            for (i, x) in self.0.iter().enumerate() {
+                if i > 0 {
+                    f.write_str(", ")?;
+                }
+                fmt::Display::fmt(x, f)?;
+            }
+            f.write_str("}")
+        }
+    }
+    struct JoinPairsOpts<'a>(&'a [(u32, i32)]);
+    impl fmt::Display for JoinPairsOpts<'_> {
+        fn fmt(&self, f: &mut fmt::Formatter<'_>) -> fmt::Result {
+            f.write_str("{")?;
+            for (i, (k, v)) in self.0.iter().enumerate() {
+                if i > 0 {
+                    f.write_str(", ")?;
+                }
+                fmt::Display::fmt(k, f)?;
+                f.write_str(": ")?;
+                fmt::Display::fmt(v, f)?;
+            }
+            f.write_str("}")
+        }
+    }
+    let mut rng = Rng(seed ^ 0xf0f0_11);
+    let mut m: Map<u32, i32, N> = Map::new();
+    let mut s: Set<i32, N> = Set::new();
+    for _ in 0..rng.below(N as u32 + 1).min(12) {
+        let k = rng.below(4000);
+        let v = rng.below(70000) as i32 - 35000;
+        if m.len() < N && !m.contains_key(&k) {
+            m.insert(k, v);
+        }
+        if s.len() < N && !s.contains(&v) {
+            s.insert(v);
+        }
+    }
+    if m.len() > 1 && rng.below(2) == 0 {
+        let k = *m.keys().next().unwrap();
+        m.remove(&k);
+    }
+    let ents: Vec<(u32, i32)> = m.iter().map(|(k, v)| (*k, *v)).collect();
+    let els: Vec<i32> = s.iter().copied().collect();
+    let plain_s = format!("{{{}}}", els.iter().map(|x| x.to_string()).collect::<Vec<_>>().join(", "));
+    let plain_m = format!("{{{}}}", ents.iter().map(|(k, v)| format!("{k}: {v}")).collect::<Vec<_>>().join(", "));
+    macro_rules! dbg {
+        ($($f:literal),*) => {$(
+            let (g, w) = (format!($f, m), format!($f, DM(&ents)));
+            if g != w { bail!("Map<u32, i32, {N}>: {} renders {g:?}, std's debug_map renders {w:?}", $f); }
+            let (g, w) = (format!($f, s), format!($f, DS(&els)));
+            if g != w { bail!("Set<i32, {N}>: {} renders {g:?}, std's debug_set renders {w:?}", $f); }
+            let (g, w) = (format!($f, m.iter()), format!($f, DL(&ents.iter().map(|(k, v)| (k, v)).collect::<Vec<_>>())));
+            if g != w { bail!("Map::iter(): {} renders {g:?}, std's debug_list renders {w:?}", $f); }
+            let (g, w) = (format!($f, m.keys()), format!($f, DL(&ents.iter().map(|p| p.0).collect::<Vec<_>>())));
+            if g != w { bail!("Map::keys(): {} renders {g:?}, std's debug_list renders {w:?}", $f); }
+            let (g, w) = (format!($f, m.values()), format!($f, DL(&ents.iter().map(|p| p.1).collect::<Vec<_>>())));
+            if g != w { bail!("Map::values(): {} renders {g:?}, std's debug_list renders {w:?}", $f); }
+            let mut it = m.iter();
+            it.next();
+            let rest: Vec<(&u32, &i32)> = ents.iter().skip(1).map(|(k, v)| (k, v)).collect();
+            let (g, w) = (format!($f, it), format!($f, DL(&rest)));
+            if g != w { bail!("Map::iter() after one step: {} renders {g:?}, std's debug_list renders {w:?}", $f); }
+            let mut c = m.clone();
+            let mut d = c.drain();
+            d.next();
+            let (g, w) = (format!($f, d), format!($f, DL(&rest)));
+            if g != w { bail!("Map::drain() after one step: {} renders {g:?}, std's debug_list renders {w:?}", $f); }
+        )*};
+    }
+    dbg!("{:?}", "{:#?}", "{:x?}", "{:X?}", "{:#x?}", "{:6?}", "{:<7?}", "{:*^9?}", "{:+?}", "{:07?}", "{:#08x?}");
+    macro_rules! dsp {
+        ($($f:literal),*) => {$(
+            let g = format!($f, s);
+            let w = format!($f, JoinOpts(&els));
+            if g != w && g != plain_s { bail!("Set<i32, {N}>: {} renders {g:?}; the entries joined are {w:?} (with the options) or {plain_s:?} (without)", $f); }
+            let g = format!($f, m);
+            let w = format!($f, JoinPairsOpts(&ents));
+            if g != w && g != plain_m { bail!("Map<u32, i32, {N}>: {} renders {g:?}; the entries joined are {w:?} (with the options) or {plain_m:?} (without)", $f); }
+        )*};
+    }
+    dsp!("{}", "{:>6}", "{:<7}", "{:*^9}", "{:+}", "{:07}", "{:#}");
+    // floats honour the precision
+    let mut fs: Set<u64, N> = Set::new();
+    let mut fm: Map<u8, f64, N> = Map::new();
+    for i in 0..(N.min(3) as u8) {
+        fm.insert(i, 1.0 / (i as f64 + 3.0));
+        fs.insert(i as u64 * 1000);
+    }
+    let fe: Vec<(u8, f64)> = fm.iter().map(|(k, v)| (*k, *v)).collect();
+    struct DF<'a>(&'a [(u8, f64)]);
+    impl fmt::Debug for DF<'_> {
+        fn fmt(&self, f: &mut fmt::Formatter<'_>) -> fmt::Result {
+            f.debug_map().entries(self.0.iter().map(|(k, v)| (k, v))).finish()
+        }
+    }
+    let (g, w) = (format!("{:.2?}", fm), format!("{:.2?}", DF(&fe)));
+    if g != w {
+        bail!("Map<u8, f64, {N}>: {{:.2?}} renders {g:?}, std's debug_map renders {w:?}");
+    }
+    let _ = fs;
+    Ok(())
+}
+
 /// every shape, one family string; `"ok"` or the first discrepancy
 pub fn run<const N: usize>(fam: &str, seed: u64) -> String {
     macro_rules! shape {
@@ -1341,6 +1474,11 @@ pub fn run<const N: usize>(fam: &str, seed: u64) -> String {
         sshape!(String);
         sshape!(RcE);
         if let Err(e) = extend_ref_scenario::<N>(seed) {
+            return e;
+        }
+    }
+    if fam.contains('f') {
+        if let Err(e) = fmt_scenario::<N>(seed) {
             return e;
         }
     }
